@@ -71,30 +71,50 @@ class InitiateRequest(AbstractXDlmsApdu):
                 f"Data is not a InitiateReques APDU, got apdu tag {apdu_tag}"
             )
 
-        decoder = a_xdr.AXdrDecoder(cls.ENCODING_CONF)
-        object_dict = decoder.decode(data)
-
-        # Since the initiate request mixes a-xdr and ber encoding we make some pragmatic
-        # one-off handling of that case.
-
-        rest = bytearray(object_dict.pop("rest").value)
-        # rest contains ber endoced propesed conformance and max reciec pdu
-
-        conformance_tag = rest[:2]
-        if conformance_tag != b"\x5f\x1f":
-            raise ValueError(
-                f"Didnt receive conformance tag correcly, got {conformance_tag!r}"
-            )
-        conformance = xdlms.Conformance.from_bytes(data[-5:-2])
-        max_pdu_size = int.from_bytes(data[-2:], "big")
-        dedicated_key_obj = object_dict.pop("dedicated_key")
-        if dedicated_key_obj:
-            dedicated_key = bytes(dedicated_key_obj.value)
+        # dedicated-key: OCTET STRING OPTIONAL
+        has_dedicated_key = bool(data.pop(0))
+        if has_dedicated_key:
+            key_length, data = a_xdr.decode_variable_integer(data)
+            dedicated_key = bytes(data[:key_length])
+            if len(dedicated_key) != key_length:
+                raise ValueError("Not enough data for the dedicated key")
+            data = data[key_length:]
         else:
             dedicated_key = None
+
+        # response-allowed: BOOLEAN DEFAULT TRUE
+        response_allowed_is_encoded = bool(data.pop(0))
+        if response_allowed_is_encoded:
+            response_allowed = bool(data.pop(0))
+        else:
+            response_allowed = True
+
+        # proposed-quality-of-service: Integer8 OPTIONAL. Not used in DLMS, 0 when absent
+        has_quality_of_service = bool(data.pop(0))
+        if has_quality_of_service:
+            quality_of_service = data.pop(0)
+        else:
+            quality_of_service = 0
+
+        dlms_version = data.pop(0)
+
+        # The conformance is BER encoded: tag, length, unused bits and 3 bytes of bits.
+        if len(data) != 9:
+            raise ValueError(
+                f"Expected conformance and max pdu size (9 bytes), got {len(data)}"
+            )
+        conformance_tag_and_length = data[:3]
+        if conformance_tag_and_length != b"\x5f\x1f\x04":
+            raise ValueError(
+                f"Didnt receive conformance tag correcly, got {conformance_tag_and_length!r}"
+            )
+        conformance = xdlms.Conformance.from_bytes(data[3:7])
+        max_pdu_size = int.from_bytes(data[7:9], "big")
         return cls(
-            **object_dict,
             dedicated_key=dedicated_key,
+            response_allowed=response_allowed,
+            proposed_quality_of_service=quality_of_service,
+            proposed_dlms_version_number=dlms_version,
             proposed_conformance=conformance,
             client_max_receive_pdu_size=max_pdu_size,
         )
@@ -106,13 +126,21 @@ class InitiateRequest(AbstractXDlmsApdu):
         out.append(self.TAG)
         if self.dedicated_key:
             out.append(0x01)
-            out.append(len(self.dedicated_key))
+            out.extend(a_xdr.encode_variable_integer(len(self.dedicated_key)))
             out.extend(self.dedicated_key)
         else:
             out.append(0x00)
-        out.append(0x00)
-        out.append(0x00)
-        out.append(0x06)
+        if self.response_allowed:
+            # default value
+            out.append(0x00)
+        else:
+            out.extend(b"\x01\x00")
+        if self.proposed_quality_of_service:
+            out.append(0x01)
+            out.append(self.proposed_quality_of_service)
+        else:
+            out.append(0x00)
+        out.append(self.proposed_dlms_version_number)
         out.extend(b"_\x1f\x04")
         out.extend(self.proposed_conformance.to_bytes())
         out.extend(self.client_max_receive_pdu_size.to_bytes(2, "big"))
@@ -134,7 +162,7 @@ class GlobalCipherInitiateRequest(AbstractXDlmsApdu):
         if tag != cls.TAG:
             raise ValueError(f"Tag is not correct. Should be {cls.TAG} but got {tag}")
 
-        length = data.pop(0)
+        length, data = a_xdr.decode_variable_integer(data)
         if length != len(data):
             raise ValueError(f"Octetstring is not of correct length")
 
@@ -154,6 +182,6 @@ class GlobalCipherInitiateRequest(AbstractXDlmsApdu):
         octet_string_data.extend(self.security_control.to_bytes())
         octet_string_data.extend(self.invocation_counter.to_bytes(4, "big"))
         octet_string_data.extend(self.ciphered_text)
-        out.append(len(octet_string_data))
+        out.extend(a_xdr.encode_variable_integer(len(octet_string_data)))
         out.extend(octet_string_data)
         return bytes(out)
